@@ -462,6 +462,19 @@ func ruleC06DistinctLoop(c *Ctx) {
 	if !sawOff {
 		why = append(why, "no path for DISTINCT off")
 	}
+	// flag on => no shortcut hands the rows back unexamined: every such return comes from the loop's accumulator
+	for _, p := range all {
+		on := false
+		for k, v := range p.Asg {
+			kt := p.KeyTerm[k]
+			if kt != nil && kt.Op == "field" && kt.Name == "distinct" && isTrueC(v) {
+				on = true
+			}
+		}
+		if on && p.Exit == "return" && len(p.Ret) == 2 && p.Ret[1].Nil && p.Ret[0].T != nil && p.Ret[0].T.Op == "param" && p.Ret[0].T.Name == rows.Name() {
+			why = append(why, "with DISTINCT a path returns the rows as they are, without looking for duplicates ("+p.String()+")")
+		}
+	}
 	paths, err := WalkFrom(f, lp.body, lp.header, WalkCfg{StopAt: func(b *ssa.BasicBlock) bool { return b == lp.header }, MaxVisits: 1})
 	if err != nil {
 		c.Unknown("c06.distinct-first", key, c.P.Pos(f.Pos()), err.Error())
